@@ -1029,8 +1029,6 @@ package ast
 //@   nopanic
 //@   modifies @wstream
 //@   ensures ($wErrN > old($wErrN)) == (err != nil) && $wErrN >= old($wErrN)
-//@ extern func (m Meta) GetASTType() (t)
-//@   nopanic
 //@ extern func (m Meta) ReadMetaFrom(reader) (err)
 //@   nopanic
 //@   modifies *, @rstream
@@ -1056,9 +1054,6 @@ package ast
 //@ extern func (cat *Catalog) ReadCatalogFromReader(reader) (err)
 //@   modifies *, @rstream
 //@   ghost_exit $catReadFailed = err != nil
-//@ extern func (cat *Catalog) BuildKnowledgeBase() (kb, err)
-//@   modifies *
-//@   ensures err == nil ==> kb != nil
 //@ func (lib *KnowledgeLibrary) LoadKnowledgeBaseFromReader(reader, overwrite) (retKb, retErr)
 //@   serves C12 C20
 //@   requires lib != nil && lib.Library != nil
@@ -1654,3 +1649,113 @@ package ast
 //@   requires ctx != nil && ctx.ObjectStore != nil
 //@   nopanic
 //@   modifies alloc, fresh model.JSONValueNode.*, map[string]model.ValueNode
+
+// ---- generated by /verif/gen/gen_buildkb_contract.py: BuildKnowledgeBase rebuilds every node with the scalars of its record ----
+//@ func (meta *ArgumentListMeta) GetASTType() (t)
+//@   serves C12
+//@   nopanic
+//@   modifies
+//@   ensures t == TypeArgumentList
+//@ func (meta *ArrayMapSelectorMeta) GetASTType() (t)
+//@   serves C12
+//@   nopanic
+//@   modifies
+//@   ensures t == TypeArrayMapSelector
+//@ func (meta *AssigmentMeta) GetASTType() (t)
+//@   serves C12
+//@   nopanic
+//@   modifies
+//@   ensures t == TypeAssignment
+//@ func (meta *ConstantMeta) GetASTType() (t)
+//@   serves C12
+//@   nopanic
+//@   modifies
+//@   ensures t == TypeConstant
+//@ func (meta *ExpressionMeta) GetASTType() (t)
+//@   serves C12
+//@   nopanic
+//@   modifies
+//@   ensures t == TypeExpression
+//@ func (meta *ExpressionAtomMeta) GetASTType() (t)
+//@   serves C12
+//@   nopanic
+//@   modifies
+//@   ensures t == TypeExpressionAtom
+//@ func (meta *FunctionCallMeta) GetASTType() (t)
+//@   serves C12
+//@   nopanic
+//@   modifies
+//@   ensures t == TypeFunctionCall
+//@ func (meta *RuleEntryMeta) GetASTType() (t)
+//@   serves C12
+//@   nopanic
+//@   modifies
+//@   ensures t == TypeRuleEntry
+//@ func (meta *ThenExpressionMeta) GetASTType() (t)
+//@   serves C12
+//@   nopanic
+//@   modifies
+//@   ensures t == TypeThenExpression
+//@ func (meta *ThenExpressionListMeta) GetASTType() (t)
+//@   serves C12
+//@   nopanic
+//@   modifies
+//@   ensures t == TypeThenExpressionList
+//@ func (meta *ThenScopeMeta) GetASTType() (t)
+//@   serves C12
+//@   nopanic
+//@   modifies
+//@   ensures t == TypeThenScope
+//@ func (meta *VariableMeta) GetASTType() (t)
+//@   serves C12
+//@   nopanic
+//@   modifies
+//@   ensures t == TypeVariable
+//@ func (meta *WhenScopeMeta) GetASTType() (t)
+//@   serves C12
+//@   nopanic
+//@   modifies
+//@   ensures t == TypeWhenScope
+//@ extern func (m Meta) GetASTType() (t)
+//@   nopanic
+//@   modifies
+//@   implementers (*ast.ArgumentListMeta).GetASTType, (*ast.ArrayMapSelectorMeta).GetASTType, (*ast.AssigmentMeta).GetASTType, (*ast.ConstantMeta).GetASTType, (*ast.ExpressionMeta).GetASTType, (*ast.ExpressionAtomMeta).GetASTType, (*ast.FunctionCallMeta).GetASTType, (*ast.RuleEntryMeta).GetASTType, (*ast.ThenExpressionMeta).GetASTType, (*ast.ThenExpressionListMeta).GetASTType, (*ast.ThenScopeMeta).GetASTType, (*ast.VariableMeta).GetASTType, (*ast.WhenScopeMeta).GetASTType
+// the AstID / GrlText of a meta record (promoted NodeMeta fields); Meta.GetAstID / GetGrlText are the accessors (*NodeMeta).GetAstID /
+// GetGrlText reached by embedding (ASSUMED to return these fields: they are one-line accessors)
+//@ macro func metaAstID(m Ref) string { return ite(typeof(m) == typeid(*ArgumentListMeta), as(m, *ArgumentListMeta).AstID, ite(typeof(m) == typeid(*ArrayMapSelectorMeta), as(m, *ArrayMapSelectorMeta).AstID, ite(typeof(m) == typeid(*AssigmentMeta), as(m, *AssigmentMeta).AstID, ite(typeof(m) == typeid(*ConstantMeta), as(m, *ConstantMeta).AstID, ite(typeof(m) == typeid(*ExpressionMeta), as(m, *ExpressionMeta).AstID, ite(typeof(m) == typeid(*ExpressionAtomMeta), as(m, *ExpressionAtomMeta).AstID, ite(typeof(m) == typeid(*FunctionCallMeta), as(m, *FunctionCallMeta).AstID, ite(typeof(m) == typeid(*RuleEntryMeta), as(m, *RuleEntryMeta).AstID, ite(typeof(m) == typeid(*ThenExpressionMeta), as(m, *ThenExpressionMeta).AstID, ite(typeof(m) == typeid(*ThenExpressionListMeta), as(m, *ThenExpressionListMeta).AstID, ite(typeof(m) == typeid(*ThenScopeMeta), as(m, *ThenScopeMeta).AstID, ite(typeof(m) == typeid(*VariableMeta), as(m, *VariableMeta).AstID, ite(typeof(m) == typeid(*WhenScopeMeta), as(m, *WhenScopeMeta).AstID, ""))))))))))))) }
+//@ macro func metaGrlText(m Ref) string { return ite(typeof(m) == typeid(*ArgumentListMeta), as(m, *ArgumentListMeta).GrlText, ite(typeof(m) == typeid(*ArrayMapSelectorMeta), as(m, *ArrayMapSelectorMeta).GrlText, ite(typeof(m) == typeid(*AssigmentMeta), as(m, *AssigmentMeta).GrlText, ite(typeof(m) == typeid(*ConstantMeta), as(m, *ConstantMeta).GrlText, ite(typeof(m) == typeid(*ExpressionMeta), as(m, *ExpressionMeta).GrlText, ite(typeof(m) == typeid(*ExpressionAtomMeta), as(m, *ExpressionAtomMeta).GrlText, ite(typeof(m) == typeid(*FunctionCallMeta), as(m, *FunctionCallMeta).GrlText, ite(typeof(m) == typeid(*RuleEntryMeta), as(m, *RuleEntryMeta).GrlText, ite(typeof(m) == typeid(*ThenExpressionMeta), as(m, *ThenExpressionMeta).GrlText, ite(typeof(m) == typeid(*ThenExpressionListMeta), as(m, *ThenExpressionListMeta).GrlText, ite(typeof(m) == typeid(*ThenScopeMeta), as(m, *ThenScopeMeta).GrlText, ite(typeof(m) == typeid(*VariableMeta), as(m, *VariableMeta).GrlText, ite(typeof(m) == typeid(*WhenScopeMeta), as(m, *WhenScopeMeta).GrlText, ""))))))))))))) }
+//@ extern func (m Meta) GetAstID() (s)
+//@   nopanic
+//@   modifies
+//@   ensures s == metaAstID(m)
+//@ extern func (m Meta) GetGrlText() (s)
+//@   nopanic
+//@   modifies
+//@   ensures s == metaGrlText(m)
+// a rebuilt node is of the kind its record names and carries every scalar the record declares
+//@ macro func nodeOK(n Ref, m Ref) bool { return n != nil && allocated(n) && (typeof(m) == typeid(*ArgumentListMeta) ==> typeof(n) == typeid(*ArgumentList) && as(n, *ArgumentList).AstID == as(m, *ArgumentListMeta).AstID && as(n, *ArgumentList).GrlText == as(m, *ArgumentListMeta).GrlText)
+//@      && (typeof(m) == typeid(*ArrayMapSelectorMeta) ==> typeof(n) == typeid(*ArrayMapSelector) && as(n, *ArrayMapSelector).AstID == as(m, *ArrayMapSelectorMeta).AstID && as(n, *ArrayMapSelector).GrlText == as(m, *ArrayMapSelectorMeta).GrlText)
+//@      && (typeof(m) == typeid(*AssigmentMeta) ==> typeof(n) == typeid(*Assignment) && as(n, *Assignment).AstID == as(m, *AssigmentMeta).AstID && as(n, *Assignment).GrlText == as(m, *AssigmentMeta).GrlText && as(n, *Assignment).IsAssign == as(m, *AssigmentMeta).IsAssign && as(n, *Assignment).IsPlusAssign == as(m, *AssigmentMeta).IsPlusAssign && as(n, *Assignment).IsMinusAssign == as(m, *AssigmentMeta).IsMinusAssign && as(n, *Assignment).IsDivAssign == as(m, *AssigmentMeta).IsDivAssign && as(n, *Assignment).IsMulAssign == as(m, *AssigmentMeta).IsMulAssign)
+//@      && (typeof(m) == typeid(*ConstantMeta) ==> typeof(n) == typeid(*Constant) && as(n, *Constant).AstID == as(m, *ConstantMeta).AstID && as(n, *Constant).GrlText == as(m, *ConstantMeta).GrlText && as(n, *Constant).Snapshot == as(m, *ConstantMeta).Snapshot && as(n, *Constant).IsNil == as(m, *ConstantMeta).IsNil)
+//@      && (typeof(m) == typeid(*ExpressionMeta) ==> typeof(n) == typeid(*Expression) && as(n, *Expression).AstID == as(m, *ExpressionMeta).AstID && as(n, *Expression).GrlText == as(m, *ExpressionMeta).GrlText && as(n, *Expression).Operator == as(m, *ExpressionMeta).Operator && as(n, *Expression).Negated == as(m, *ExpressionMeta).Negated)
+//@      && (typeof(m) == typeid(*ExpressionAtomMeta) ==> typeof(n) == typeid(*ExpressionAtom) && as(n, *ExpressionAtom).AstID == as(m, *ExpressionAtomMeta).AstID && as(n, *ExpressionAtom).GrlText == as(m, *ExpressionAtomMeta).GrlText && as(n, *ExpressionAtom).VariableName == as(m, *ExpressionAtomMeta).VariableName && as(n, *ExpressionAtom).Negated == as(m, *ExpressionAtomMeta).Negated)
+//@      && (typeof(m) == typeid(*FunctionCallMeta) ==> typeof(n) == typeid(*FunctionCall) && as(n, *FunctionCall).AstID == as(m, *FunctionCallMeta).AstID && as(n, *FunctionCall).GrlText == as(m, *FunctionCallMeta).GrlText && as(n, *FunctionCall).FunctionName == as(m, *FunctionCallMeta).FunctionName)
+//@      && (typeof(m) == typeid(*RuleEntryMeta) ==> typeof(n) == typeid(*RuleEntry) && as(n, *RuleEntry).AstID == as(m, *RuleEntryMeta).AstID && as(n, *RuleEntry).GrlText == as(m, *RuleEntryMeta).GrlText && as(n, *RuleEntry).RuleName == as(m, *RuleEntryMeta).RuleName && as(n, *RuleEntry).RuleDescription == as(m, *RuleEntryMeta).RuleDescription && as(n, *RuleEntry).Salience == as(m, *RuleEntryMeta).Salience)
+//@      && (typeof(m) == typeid(*ThenExpressionMeta) ==> typeof(n) == typeid(*ThenExpression) && as(n, *ThenExpression).AstID == as(m, *ThenExpressionMeta).AstID && as(n, *ThenExpression).GrlText == as(m, *ThenExpressionMeta).GrlText)
+//@      && (typeof(m) == typeid(*ThenExpressionListMeta) ==> typeof(n) == typeid(*ThenExpressionList) && as(n, *ThenExpressionList).AstID == as(m, *ThenExpressionListMeta).AstID && as(n, *ThenExpressionList).GrlText == as(m, *ThenExpressionListMeta).GrlText)
+//@      && (typeof(m) == typeid(*ThenScopeMeta) ==> typeof(n) == typeid(*ThenScope) && as(n, *ThenScope).AstID == as(m, *ThenScopeMeta).AstID && as(n, *ThenScope).GrlText == as(m, *ThenScopeMeta).GrlText)
+//@      && (typeof(m) == typeid(*VariableMeta) ==> typeof(n) == typeid(*Variable) && as(n, *Variable).AstID == as(m, *VariableMeta).AstID && as(n, *Variable).GrlText == as(m, *VariableMeta).GrlText && as(n, *Variable).Name == as(m, *VariableMeta).Name)
+//@      && (typeof(m) == typeid(*WhenScopeMeta) ==> typeof(n) == typeid(*WhenScope) && as(n, *WhenScope).AstID == as(m, *WhenScopeMeta).AstID && as(n, *WhenScope).GrlText == as(m, *WhenScopeMeta).GrlText) }
+//@ macro func isMeta(m Ref) bool { return m != nil && (typeof(m) == typeid(*ArgumentListMeta) || typeof(m) == typeid(*ArrayMapSelectorMeta) || typeof(m) == typeid(*AssigmentMeta) || typeof(m) == typeid(*ConstantMeta) || typeof(m) == typeid(*ExpressionMeta) || typeof(m) == typeid(*ExpressionAtomMeta) || typeof(m) == typeid(*FunctionCallMeta) || typeof(m) == typeid(*RuleEntryMeta) || typeof(m) == typeid(*ThenExpressionMeta) || typeof(m) == typeid(*ThenExpressionListMeta) || typeof(m) == typeid(*ThenScopeMeta) || typeof(m) == typeid(*VariableMeta) || typeof(m) == typeid(*WhenScopeMeta)) }
+// what MakeCatalog / ReadCatalogFromReader produce: every record is filed under its own AstID
+//@ macro func catWF(cat *Catalog) bool { return forall k string {cat.Data[k]} :: has(cat.Data, k) ==> isMeta(cat.Data[k]) && metaAstID(cat.Data[k]) == k }
+//@ func (cat *Catalog) BuildKnowledgeBase() (kb, err)
+//@   serves C12
+//@   opt alloc=1
+//@   requires cat != nil
+//@   modifies *
+// (catWF is what the store writes; for an arbitrary stream it may fail, then nothing is claimed about the nodes)
+//@   invariant@1[C12] rebuilt: importTable != nil && (catWF(cat) ==> forall j int {$keys[j]} :: 0 <= j && j < $i ==> has(importTable, $keys[j]) && nodeOK(importTable[$keys[j]], cat.Data[$keys[j]]))
+//@   invariant@1[C12] catkept: cat == old(cat)
+//@   ensures err == nil ==> kb != nil
+//@   ensures[C12] header: err == nil ==> kb.Name == cat.KnowledgeBaseName && kb.Version == cat.KnowledgeBaseVersion && kb.WorkingMemory != nil && kb.WorkingMemory.Name == cat.MemoryName && kb.WorkingMemory.Version == cat.MemoryVersion
